@@ -142,17 +142,20 @@ type File struct {
 	TextAlign   int  `json:"text_align"`
 	RodataFirst bool `json:"rodata_first,omitempty"` // .rodata placed before .text in the file and section table
 	// WithRodata forces a .rodata section even without descriptors.
-	WithRodata   bool   `json:"with_rodata,omitempty"`
-	RodataLead   int    `json:"rodata_lead,omitempty"` // bytes of other read-only data before the first descriptor
-	RodataTail   int    `json:"rodata_tail,omitempty"`
-	TextTail     int    `json:"text_tail,omitempty"` // filler words after the last item
-	FillSeed     uint32 `json:"fill"`                // gaps in .text/.rodata
-	Flags        uint32 `json:"e_flags"`
-	MergedStrtab bool   `json:"merged_strtab,omitempty"` // one .strtab for section and symbol names (LLVM objects)
-	WithDynsym   bool   `json:"with_dynsym,omitempty"`
-	WithNote     bool   `json:"with_note,omitempty"`
-	WithComment  bool   `json:"with_comment,omitempty"`
-	WithBss      bool   `json:"with_bss,omitempty"`
+	WithRodata bool   `json:"with_rodata,omitempty"`
+	RodataLead int    `json:"rodata_lead,omitempty"` // bytes of other read-only data before the first descriptor
+	RodataTail int    `json:"rodata_tail,omitempty"`
+	TextTail   int    `json:"text_tail,omitempty"` // filler words after the last item
+	FillSeed   uint32 `json:"fill"`                // gaps in .text/.rodata
+	Flags      uint32 `json:"e_flags"`
+	// ABIVersion is e_ident[EI_ABIVERSION] of a file with descriptors: 1 = code object V3,
+	// 2 = V4, 3 = V5, 4 = V6 (0: 3, as before). Files without descriptors carry 0.
+	ABIVersion   int  `json:"abi_version,omitempty"`
+	MergedStrtab bool `json:"merged_strtab,omitempty"` // one .strtab for section and symbol names (LLVM objects)
+	WithDynsym   bool `json:"with_dynsym,omitempty"`
+	WithNote     bool `json:"with_note,omitempty"`
+	WithComment  bool `json:"with_comment,omitempty"`
+	WithBss      bool `json:"with_bss,omitempty"`
 
 	Items  []Item  `json:"items"`
 	Extras []Extra `json:"extras,omitempty"`
